@@ -22,6 +22,8 @@ BOUNDS = {
     "thorough": "values: all reals; table: every unit, EVERY ordered pair of every quantity type through the real Convert; triples: all "
                 "triples of quantity types with <= 25 units plus a seeded sample of up to 40000 elsewhere",
 }
+BOUNDS_ALSO = '; also (both tiers): container values (list, tuple, numpy array, ragged list of tuples through Array.GetValues) through the same Convert for every pair involving an offset or unit-scale unit plus a seeded sample (element = float conversion, second conversion equal, container untouched, u->w = u->v->w); u->u over ALL IEEE doubles (z3 Float64) for float/list/tuple/ndarray values and for the Quantity/Scalar route with an equal-but-not-identical unit string; the published POSC coefficients of every row against its closure'
+BOUNDS = {k_: v_ + BOUNDS_ALSO for k_, v_ in BOUNDS.items()}
 ASSUMPTIONS = [
     "A-FP: floats are exact reals, float literals lifted to their exact rational value; rounding magnitude is outside the claim",
     "numeric equality is |a-b| <= 1e-13*(|a|+|b|+1) decided over the reals",
